@@ -454,8 +454,10 @@ func (qs Qsolexa) Encode(e Encoding) (q byte) {
 		}
 	case Solexa:
 		q = byte(qs)
-		if q <= 62 {
-			q += 64
+		// Solexa scores may be negative; test the score itself, not its
+		// byte image. '!' is the lowest printable encoding.
+		if '!'-64 <= qs && qs <= 62 {
+			q = byte(qs + 64)
 		}
 	case None:
 		return ' '
